@@ -4,7 +4,7 @@
 //! Spaces
 //!   quick:    all 4,187,106 five-slot multisets over S53 = {52 cards, blank} in 5 orders (canonical, reverse, 3
 //!             rotations: a blank / duplicate visits every slot) x 5 entry points; all six-slot multisets over a
-//!             20-symbol and all seven-slot multisets over a 14-symbol sub-alphabet (x rotations); the public
+//!             30-symbol and all seven-slot multisets over a 20-symbol sub-alphabet (x rotations); the public
 //!             product-search helper for EVERY key 0..=104,553,158 (largest product + 1) and boundary keys
 //!   thorough: all 53^5 ordered five-slot arrays; all 40,475,358 six-slot and all 341,149,446 seven-slot multisets
 //!             over S53 with all rotations
@@ -203,6 +203,7 @@ fn sub_alphabet(k: usize) -> Vec<u32> {
         c(12, 2), c(11, 2), c(12, 1), c(12, 0), // more aces and a king
         c(3, 0), c(2, 0), c(1, 0), c(0, 0), // 5 4 3 2 of clubs
         c(0, 1), c(0, 2), c(5, 1), c(6, 2), c(7, 0),
+        c(11, 1), c(11, 0), c(10, 2), c(9, 2), c(8, 1), c(4, 3), c(3, 3), c(2, 3), c(1, 3), c(0, 3),
     ];
     list[..k].to_vec()
 }
@@ -264,7 +265,7 @@ pub fn run(ctx: &Ctx, rep: &mut Report) {
         let (alpha, name): (Vec<u32>, String) = if thorough {
             ((0..53).map(|i| sigma53((i + 52) % 53)).collect(), format!("all {}-slot multisets over S53 x {} rotations x 5 entry points", n, n))
         } else {
-            let k = if n == 6 { 20 } else { 14 };
+            let k = if n == 6 { 30 } else { 20 };
             (sub_alphabet(k), format!("{}-slot multisets over a {}-symbol sub-alphabet x {} rotations x 5 entry points", n, k, n))
         };
         let m = alpha.len();
@@ -360,7 +361,7 @@ pub fn run(ctx: &Ctx, rep: &mut Report) {
     rep.bound = if thorough {
         "five slots: complete (53^5 ordered arrays). six/seven slots: all multisets over S53 in all rotations (not all orders). helper: every key up to max product + 1 plus boundary keys".into()
     } else {
-        "five slots: all multisets x 5 orders. six/seven slots: all multisets over 20-/14-symbol sub-alphabets x rotations. helper: every key up to max product + 1 plus boundary keys".into()
+        "five slots: all multisets x 5 orders. six/seven slots: all multisets over 30-/20-symbol sub-alphabets x rotations. helper: every key up to max product + 1 plus boundary keys".into()
     };
     rep.assume("a hang is detected by the per-worker watchdog (no progress for CKC_MC_HANG_SECS, default 90 s, inside one published case)");
 }
